@@ -77,7 +77,7 @@ sim::Config sim_config(const Plan& p, bool verbose)
 	c.p_preempt = p.knob("p_preempt_pm", 200) / 1000.0;
 	c.pct_depth = (int)p.knob("pct_depth", 3);
 	c.start_ns = 1767571200ll * 1000000000ll + p.knob("start_off_ms", 0) * 1000000ll;
-	c.step_budget = (uint64_t)p.knob("step_budget", 3000000);
+	c.step_budget = (uint64_t)p.knob("step_budget", 1500000);
 	c.keep_trace = verbose;
 	return c;
 }
